@@ -145,9 +145,18 @@ def explore(res, tier, seed, only=None):
         out[b["id"]] = dict(base=b, dir=bdir, sizes=sizes, cases=[dict(id="%s_%d" % (b["id"], i), file=fn, op=op) for i, (fn, op) in enumerate(ops)])
         allcases += [(b, c) for c in out[b["id"]]["cases"]]
     casefile = os.path.join(wd, "cases.txt")
+    # several readers at once on a sample of the damaged compressed containers (every one in a replay): the
+    # decoder is held back at each chunk so that the readers sleep on its condition variable when it fails
+    nmt = 0
+    for k, (b, c) in enumerate(allcases):
+        if b["comp"] != "none" and c["op"].split(":")[0] in ("flip", "zero", "write", "xor", "trunc") and \
+                (only is not None or k % (5 if tier == "quick" else 3) == 0):
+            c["mt"] = 4
+            nmt += 1
     with open(casefile, "w") as f:
         for b, c in allcases:
-            f.write("case %s damage base=%s main=c.jbk file=%s op=%s\nend\n" % (c["id"], out[b["id"]]["dir"], c["file"], c["op"]))
+            f.write("case %s damage base=%s main=c.jbk file=%s op=%s%s\nend\n" % (
+                c["id"], out[b["id"]]["dir"], c["file"], c["op"], (" mt=%d" % c["mt"]) if c.get("mt") else ""))
     # 2. the real reader, one child per case, both profiles
     for prof, exe in (("debug", exed), ("release", exer)):
         of = os.path.join(wd, "rust_%s.out" % prof)
@@ -156,7 +165,8 @@ def explore(res, tier, seed, only=None):
         for b, c in allcases:
             ls = R.get(c["id"], [])
             oc = [l.split(" ", 1)[1] for l in ls if l.startswith("outcome ")]
-            c[prof] = dict(lines=[l for l in ls if not l.startswith("outcome ")], outcome=oc[0] if oc else "NONE")
+            c[prof] = dict(lines=[l for l in ls if not l.startswith(("outcome ", "@oracle "))], outcome=oc[0] if oc else "NONE",
+                           mt=[l[len("@oracle "):] for l in ls if l.startswith("@oracle mt ")])
     # 3. the model reader on the same damaged bytes (+ the checksummed ranges of the pristine files)
     nsh = 16
     shards = [os.path.join(wd, "model_cases_%d.txt" % k) for k in range(nsh)]
